@@ -841,7 +841,8 @@ impl<'a, F: Fam> System<'a> for TypedSys<F> {
 
     fn accessor<'b>(&'b self) -> AccessorCow<'a, 'b, Self> {
         let ctx = &self.ctx;
-        if ctx.dispatching.load(Ordering::SeqCst) {
+        // (once per run: a library that asks for the accessor twice before fetching enters once)
+        if ctx.dispatching.load(Ordering::SeqCst) && !ctx.states[self.sid].pending_enter.load(Ordering::SeqCst) {
             let sid = self.sid;
             ctx.point(sid, PH_AT_ENTER);
             let st = &ctx.states[sid];
